@@ -20,6 +20,15 @@ CLAIMED = {
              "context (R05.2), python_code built-not-pasted (R05.3), no double escaping (R05.4), sanitiser alphabets over all "
              "code points (R05.5). Genuine defects of the pinned tree are listed per sink in known_findings.json.",
         ref="DESIGN.md §4 C05"),
+    "C09": dict(
+        technique="abstract interpretation of the naming pipeline over code-point sets (all of Unicode) + label analysis of identifier-typed fields + CFG dominance rules on the uniqueness registries",
+        text="(a) validity for ALL strings: every return path of PythonIdentifier/ClassName and every enum member-name store "
+             "is interpreted over bitsets of all 0x110000 code points (first in ID_Start, rest in ID_Continue, non-empty, not "
+             "reserved) - a proof or a witness character per path; (b) identifier-typed fields and template name positions "
+             "only receive constructor results; (c) uniqueness scopes: every keyed registry store is dominated by a membership "
+             "test on the same key leading to a diagnostic, renames force a re-check, success returns are dominated by the "
+             "parameter loop. Not decided: that disambiguation succeeds whenever it could.",
+        ref="DESIGN.md §4 C09"),
 }
 
 NOT_APPLICABLE = {
